@@ -37,7 +37,7 @@ CHARGED = {"ARG", "LYS", "ASP", "GLU", "HIP", "HSP", "CYM", "TYM", "ASH", "GLH",
 @st.composite
 def protein_case(draw):
     ff = draw(st.sampled_from(strat.FFS))
-    desc = draw(e2e.structure(max_chains=3, nmax=5, contact=False, waters=True, variants=0.3, cif=True))
+    desc = draw(e2e.structure(max_chains=3, nmax=5, contact=False, waters=True, variants=0.3, cif=True, icodes=True))
     hidden = False
     if len(desc["chains"]) > 1 and draw(st.integers(0, 2)) == 0:
         # hidden chain end(s): same chain id, no TER, OXT present on the part before
